@@ -28,8 +28,10 @@ EXTENDS Integers, Sequences, FiniteSets, TLC, Json
 
 TraceLog == ndJsonDeserialize("trace.ndjson")
 
-VARIABLES l, haveB, built, haveR, first, viol, fired
-vars == <<l, haveB, built, haveR, first, viol, fired>>
+VARIABLES l, haveB, built, haveR, first, fk, viol, fired
+vars == <<l, haveB, built, haveR, first, fk, viol, fired>>
+\* fk: since the last Built the importing node was switched to a sibling branch (event Fork, switched): importing the
+\* builder's block then makes it switch back and re-adopt the blocks the branch had replaced
 
 \* lidx: the transaction index every log carries (stored with the receipts, not committed to by the receipt trie)
 Fields == {"root", "vroot", "sroot", "rcpt", "bloom", "gas", "logs", "stat", "lidx"}
@@ -64,19 +66,19 @@ MinerBad(e) == (IF Ids(e.included) \subseteq Ids(e.offered) THEN {} ELSE {"not_o
                \cup (IF e.cbok THEN {} ELSE {"coinbase"})
 
 Zero == [Deterministic |-> 0, BuilderAccepted |-> 0, ImportReproduces |-> 0, Aborted |-> 0, PeriodEnds |-> 0, Slashed |-> 0,
-         MinerIncludesOnlyExecutable |-> 0, MinerDropped |-> 0, MinerRejected |-> 0]
-Init == l = 1 /\ haveB = FALSE /\ built = 0 /\ haveR = FALSE /\ first = 0 /\ viol = {} /\ fired = Zero
+         MinerIncludesOnlyExecutable |-> 0, MinerDropped |-> 0, MinerRejected |-> 0, Forks |-> 0, SwitchBacks |-> 0]
+Init == l = 1 /\ haveB = FALSE /\ built = 0 /\ haveR = FALSE /\ first = 0 /\ fk = FALSE /\ viol = {} /\ fired = Zero
 
 Step ==
    /\ l <= Len(TraceLog)
    /\ l' = l + 1
    /\ LET e == TraceLog[l] IN
-      CASE e.ev = "reset" -> haveB' = FALSE /\ built' = 0 /\ haveR' = FALSE /\ first' = 0 /\ UNCHANGED <<viol, fired>>
+      CASE e.ev = "reset" -> haveB' = FALSE /\ built' = 0 /\ haveR' = FALSE /\ first' = 0 /\ fk' = FALSE /\ UNCHANGED <<viol, fired>>
         [] e.ev \in {"abort", "Panic", "BuildError"} ->
-              /\ haveB' = FALSE /\ built' = 0 /\ haveR' = FALSE /\ first' = 0 /\ UNCHANGED viol
+              /\ haveB' = FALSE /\ built' = 0 /\ haveR' = FALSE /\ first' = 0 /\ fk' = FALSE /\ UNCHANGED viol
               /\ fired' = [fired EXCEPT !.Aborted = @ + 1]
         [] e.ev = "Built" ->
-              /\ haveB' = TRUE /\ built' = e /\ haveR' = FALSE /\ first' = 0
+              /\ haveB' = TRUE /\ built' = e /\ haveR' = FALSE /\ first' = 0 /\ fk' = FALSE
               /\ viol' = viol \cup (IF IsMiner(e) /\ MinerBad(e) # {}
                                     THEN { <<"MinerIncludesOnlyExecutable", MinerBad(e) \cup Unlisted(e), l>> } ELSE {})
               /\ fired' = [fired EXCEPT !.PeriodEnds = @ + (IF e.pe THEN 1 ELSE 0), !.Slashed = @ + (IF e.nslash > 0 THEN 1 ELSE 0),
@@ -88,18 +90,29 @@ Step ==
               LET det == IF haveR THEN DiffOn(e, first, Fields \cup {"err"}) ELSE {}
                   rep == IF e.err # "" THEN {"error", e.errc} ELSE DiffOn(e, built, Fields) IN
               /\ haveR' = TRUE /\ first' = IF haveR THEN first ELSE e
-              /\ UNCHANGED <<haveB, built>>
+              /\ UNCHANGED <<haveB, built, fk>>
               /\ fired' = [fired EXCEPT !.Deterministic = @ + (IF haveR THEN 1 ELSE 0), !.ImportReproduces = @ + 1]
               /\ viol' = viol \cup (IF det # {} THEN { <<"Deterministic", det \cup {"on_" \o e.on} \cup Unlisted(built), l>> } ELSE {})
                               \cup (IF rep # {} THEN { <<"ImportReproduces", rep \cup Unlisted(built), l>> } ELSE {})
         [] e.ev = "Imported" /\ haveB ->
               LET acc == e.err = "" /\ e.head
                   rep == IF acc THEN DiffOn(e, built, StoredFields) ELSE {} IN
-              /\ UNCHANGED <<haveB, built, haveR, first>>
-              /\ fired' = [fired EXCEPT !.BuilderAccepted = @ + 1, !.ImportReproduces = @ + 1]
-              /\ viol' = viol \cup (IF ~acc THEN { <<"BuilderAccepted", {IF e.err = "" THEN "not_head" ELSE e.errc} \cup Unlisted(built), l>> } ELSE {})
+              /\ UNCHANGED <<haveB, built, haveR, first, fk>>
+              /\ fired' = [fired EXCEPT !.BuilderAccepted = @ + 1, !.ImportReproduces = @ + 1,
+                                        !.SwitchBacks = @ + (IF fk /\ acc THEN 1 ELSE 0)]
+              \* the block that makes the node switch back is the last one of a staking period: its take-effect phase reads
+              \* the pending transactions through the canonical lookup entries, which the switch away has deleted
+              /\ viol' = viol \cup (IF ~acc THEN { <<"BuilderAccepted", {IF e.err = "" THEN "not_head" ELSE e.errc} \cup Unlisted(built)
+                                                      \cup (IF fk /\ built.pe THEN {"switch_back_at_period_end"} ELSE {}), l>> } ELSE {})
                               \cup (IF rep # {} THEN { <<"ImportReproduces", rep \cup {"stored"}, l>> } ELSE {})
-        [] OTHER -> UNCHANGED <<haveB, built, haveR, first, viol, fired>>
+        [] e.ev = "Fork" /\ haveB ->
+              \* the sibling branch is assembled by the building path of a second node: it must be accepted as well
+              /\ fk' = (fk \/ e.switched)
+              /\ UNCHANGED <<haveB, built, haveR, first>>
+              /\ fired' = [fired EXCEPT !.Forks = @ + 1]
+              /\ viol' = viol \cup (IF e.err # "" \/ ~e.switched
+                                    THEN { <<"BuilderAccepted", {"sibling_branch", IF e.err = "" THEN "not_head" ELSE e.errc}, l>> } ELSE {})
+        [] OTHER -> UNCHANGED <<haveB, built, haveR, first, fk, viol, fired>>
 
 Spec == Init /\ [][Step]_vars
 Done == (l = Len(TraceLog) + 1) =>
